@@ -552,20 +552,20 @@ func cancelReachesIdleHandlerOverTheWire(r *Run) {
 		gap := []time.Duration{15 * time.Millisecond, 0, 40 * time.Millisecond}[(i/4)%3]
 		started := make(chan struct{}, 1)
 		ended := make(chan time.Time, 1)
+		// generous where cancellation is expected within milliseconds (only waited out on failure)
+		window := 5 * time.Second
+		if kind == "bidi-one" {
+			window = 2500 * time.Millisecond
+		}
 		wait := func(ctx context.Context) error {
 			started <- struct{}{}
 			select {
 			case <-ctx.Done():
 				ended <- time.Now()
 				return ctx.Err()
-			case <-time.After(8 * time.Second):
+			case <-time.After(window + 500*time.Millisecond):
 				return nil
 			}
-		}
-		// generous where cancellation is expected within milliseconds (only waited out on failure)
-		window := 5 * time.Second
-		if kind == "bidi-one" {
-			window = 2500 * time.Millisecond
 		}
 		svr := &scriptServer{}
 		svr.sstream = func(req *Msg, ss grpchantesting.TestService_ServerStreamServer) error { return wait(ss.Context()) }
